@@ -45,6 +45,13 @@ var twinProgs = []string{
 	"(defun lp (n) (if (= n 0) 'done (funcall (lambda (m) (lp m)) (- n 1)))) (lp n0)",
 	"(defun ap (n) (if (= n 0) 'done (apply ap (list (- n 1))))) (ap n0)",
 	"(defun tw (n) (or (= n 0) (progn (tw (- n 1)) (tw (- n 1))))) (tw n0)",
+	// a function whose tail form is a MACRO call, the macro's BODY calling back into that function
+	// during expansion: a call made through a macro expansion boundary is never collapsed
+	"(defun helper (n) (if (<= n 0) 0 (viamac (- n 1)))) (defmacro viamac (e) (helper 0) e) (helper n0)",
+	"(defun width (n) (if (<= n 0) 1 (widen n))) (defmacro widen (form) (width 0)) (list (width n0) (+ 1 (width n0)))",
+	"(defun width (n) (if (<= n 0) 1 (widen n))) (defmacro widen (form) (if true (width 0) 2)) (width n0)",
+	"(defun lp (n) (if (<= n 0) 'done (again (- n 1)))) (defmacro again (e) (let ((r (lp 0))) (quasiquote (lp (unquote e))))) (lp n0)",
+	"(defun cnt (n) (if (<= n 0) 100 (inc-mac n))) (defmacro inc-mac (e) (quasiquote (+ 1 (unquote (cnt 0))))) (list (cnt n0) (+ 1 (cnt n0)))",
 	// a loop of ANOTHER package that names itself by an unqualified symbol, entered through funcall / apply
 	"(in-package 'bpk) (export 'spin) (defun spin (n) (if (<= n 0) 'done (funcall 'spin (- n 1)))) (in-package 'user) (funcall 'bpk:spin n0)",
 	"(in-package 'bpk) (export 'spin) (defun spin (n) (if (<= n 0) 'done (apply 'spin (list (- n 1))))) (in-package 'user) (apply 'bpk:spin (list n0))",
